@@ -11,6 +11,7 @@ def dispatch (stdin stdout : IO.FS.Stream) (line : String) : IO String := do
   match splitWs line with
   | "stack" :: args => pure (StackFam.handle args)
   | "sel" :: args => SelFam.handle stdin stdout args
+  | "lexspec" :: args => pure (SelFam.handleSpec args)
   | "ping" :: _ => pure "pong"
   | _ => pure "bad-family"
 
